@@ -14,6 +14,9 @@ fn main() {
     let code = match args[1].as_str() {
         "replay-prog" => xv::prog::cmd_replay(rest),
         "rev-record" => xv::rev::cmd_record(rest),
+        "drive-record" => xv::drive::cmd_record(rest),
+        "limits-replay" => xv::limits::cmd_replay(rest),
+        "limits-record" => xv::limits::cmd_record(rest),
         other => {
             eprintln!("unknown subcommand {}", other);
             2
